@@ -19,6 +19,7 @@
 //! * `sorted` mode: coordinate order over the references with the unplaced reads as a tail.
 
 pub mod md5;
+pub mod rawwalk;
 
 use std::num::NonZero;
 
@@ -711,9 +712,7 @@ pub fn gen_mapped_read(rng: &mut Rng, refs: &[RefSeq], rid: usize, start: usize,
     }
     // the body must end with a read+reference consuming operation (or an insertion); drop trailing D/N/P
     while matches!(body.last(), Some(Edit::Del(_) | Edit::Skip(_) | Edit::Pad(_))) {
-        if let Some(Edit::Del(n) | Edit::Skip(n)) = body.pop() {
-            remaining_ref += n;
-        }
+        body.pop();
     }
     // and start with one
     while matches!(body.first(), Some(Edit::Del(_) | Edit::Skip(_) | Edit::Pad(_))) {
@@ -1154,7 +1153,9 @@ pub fn gen_stream(rng: &mut Rng, o: &GenOpts) -> Stream {
             if rng.below(1000) < o.pm_noqual {
                 s.quals.clear();
             }
-            if s.is_unmapped() && rng.below(1000) < o.pm_nobases_unmapped {
+            // (unplaced only: a placed unmapped record without bases has a zero alignment span,
+            // a different defect that C07 keeps as one hand-made witness)
+            if s.is_unmapped() && s.ref_id.is_none() && rng.below(1000) < o.pm_nobases_unmapped {
                 s.bases.clear();
                 s.quals.clear();
             }
